@@ -138,6 +138,17 @@ def run_packing(cfg, out):
             P = run.C.Packet
             w.net.set(c2s=L.Policy(loss=0.05, dup=0.05, delay=(0.003, 0.02)), s2c=L.Policy(loss=0.05, dup=0.05, delay=(0.003, 0.02)))
             c = w.connect_client()
+            import mpgameserver.client as _K
+            if r.random() < 0.5:
+                # select() reports the client's socket as not writable now and then (send buffer full)
+                _K.select.unwritable_rate = 0.03
+                _K.select.rng = w.fault_rng
+                run.c.inc("worlds_with_unwritable_socket")
+            if r.random() < 0.4:
+                # a message timeout below the resend interval: one copy in flight at a time
+                c.udp.setKeepAliveInterval(0.5)
+                c.udp.setMessageTimeout(0.3)
+                run.c.inc("worlds_with_timeout_below_resend_interval")
             if pre_mtu != mtu:
                 w.step(5)
                 P.setMTU(mtu)
@@ -329,7 +340,7 @@ def finish(tier, seed, results):
     m = merge(results)
     inconclusive = []
     need(m["counters"], ["codec_packets", "codec_form_gcm", "codec_form_crc", "codec_roundtrips_real", "codec_roundtrips_independent",
-                         "mtus_run", "wire_checked", "maximality_checked", "roundtrips_checked", "tiny_floods", "resend_plus_fresh_floods", "mtu_changes_on_open_connections", "non_bytes_payload_refused", "interleaved_sends_injected", "conservation_checked",
+                         "mtus_run", "wire_checked", "maximality_checked", "roundtrips_checked", "tiny_floods", "resend_plus_fresh_floods", "mtu_changes_on_open_connections", "non_bytes_payload_refused", "interleaved_sends_injected", "worlds_with_unwritable_socket", "worlds_with_timeout_below_resend_interval", "conservation_checked",
                          "packets_built"], inconclusive)
     cov = {
         "evaluations": m["evaluations"],
